@@ -89,7 +89,7 @@ func runC02(w *W) {
 		for k := 0; k < nenv; k++ {
 			env := drawJ2TEnv(w, len(exp), len(js))
 			w.NextOp(fmt.Sprintf("j2t doc %d env %s", d, env))
-			w.opFacts = map[string]string{"negative": fmt.Sprint(negative != ""), "in_place": simrt.PlaceNames[env.InPlace], "last_byte": lastByteClass(js)}
+			w.opFacts = map[string]string{"negative": fmt.Sprint(negative != ""), "in_place": simrt.PlaceNames[env.InPlace], "last_byte": lastByteClass(js), "literal_near_end": fmt.Sprint(literalNearEnd(js))}
 			r := runJ2T(w, &cv, desc, js, env, ctx)
 			w.opFacts = nil
 			w.T.NoteBytes(r.Out)
@@ -155,6 +155,16 @@ func lastByteClass(js []byte) string {
 		return "punct"
 	}
 	return "other"
+}
+
+// literalNearEnd: one of the last 4 bytes is t, f or n (a JSON literal that cannot be complete).
+func literalNearEnd(js []byte) bool {
+	for i := len(js) - 1; i >= 0 && i >= len(js)-4; i-- {
+		if js[i] == 't' || js[i] == 'f' || js[i] == 'n' {
+			return true
+		}
+	}
+	return false
 }
 
 func clip(b []byte, n int) string {
